@@ -784,7 +784,9 @@ func runC19Shared(id string, c *c19Shared) {
 		}
 		return append(append([]string{}, own...), "-o", "ServerAliveInterval=5")
 	}
-	eq := func(a, b []string) bool { return strings.Join(a, "\x00") == strings.Join(b, "\x00") && len(a) == len(b) }
+	eq := func(a, b []string) bool {
+		return strings.Join(a, "\x00") == strings.Join(b, "\x00") && len(a) == len(b)
+	}
 	cs.Obs = fmt.Sprintf("d1=%v d2=%v", sy1.ExtraArgs, sy2.ExtraArgs)
 	switch {
 	case !eq(sy1.ExtraArgs, want(own1)):
